@@ -4,10 +4,10 @@ from itertools import product
 import numpy as np
 
 NAME_SETS = {
-    "int": [0, 1, 2, 3, 4, 5],
-    "str": ["A", "B", "C", "D", "E", "G"],
-    "multi": ["xa", "yb", "ax", "by", "cz", "zc"],
-    "tuple": [("t", 0), ("t", 1), ("u", 0), ("u", 1), ("v", 0), ("v", 1)],
+    "int": [0, 1, 2, 3, 4, 5, 6, 7],
+    "str": ["A", "B", "C", "D", "E", "G", "H", "K"],
+    "multi": ["xa", "yb", "ax", "by", "cz", "zc", "dw", "wd"],
+    "tuple": [("t", 0), ("t", 1), ("u", 0), ("u", 1), ("v", 0), ("v", 1), ("w", 0), ("w", 1)],
 }
 
 STATE_STYLES = ["def", "str", "rot", "shift", "tuple", "mixed"]
